@@ -636,7 +636,14 @@ func c16ExecK(in []string) []string {
 		panic(c16Bad("C16: unknown destination caps " + caps))
 	}
 
-	res := c16Call(func() error { return runtime.CSVConsumer(o.csvOpts()...).Consume(reader, data) })
+	// A codec sits in a registry and serves many calls: on every other case the consumer judged here has
+	// already served a call on the same text (a codec that changes with use answers the second call differently).
+	consumer := runtime.CSVConsumer(o.csvOpts()...)
+	if len(text)%2 == 1 {
+		var warm [][]string
+		_ = c16Call(func() error { return consumer.Consume(bytes.NewReader(text), &warm) })
+	}
+	res := c16Call(func() error { return consumer.Consume(reader, data) })
 
 	sinkF, reparse, recsF, alias := "*", "*", "*", 0
 	l, c := 0, 0
@@ -767,7 +774,11 @@ func c16ExecP(in []string) []string {
 			writer = c16Writer{sink}
 		}
 
-		res = c16Call(func() error { return runtime.CSVProducer(o.csvOpts()...).Produce(writer, data) })
+		producer := runtime.CSVProducer(o.csvOpts()...)
+		if len(text)%2 == 1 { // second use of the same codec, as in c16ExecK
+			_ = c16Call(func() error { return producer.Produce(io.Discard, string(text)) })
+		}
+		res = c16Call(func() error { return producer.Produce(writer, data) })
 
 		sinkF, reparse = "*", "*"
 		if writer != nil {
